@@ -114,14 +114,36 @@ def gen_history(rng, n, classes=None, pool_size=6, same_plain9=True, nsalts=2, s
             lp = "".join(rng.choice("ghijkmnopqrstuvwxyz0123456789") for _ in range(rng.choice([90, 120, 200])))
             for k in range(3):                                              # long secrets (e.g. IKE keys) under several salts
                 pool.append((ref_encrypt(lp, ALPHA[(salt0 + 7 * k + 1) % 65]), "jun9"))
+        # secrets with a backslash at either end (not part of an escaped quote); only in unquoted slots
+        pool.append((rng.choice(["Pa55w0rd", "k3yZ"]) + "%d\\" % rng.randint(0, 99), "textbs"))
+        pool.append(("\\" + "c0mm%d" % rng.randint(0, 99), "textbs"))
+        if classes is None or "jun9" in classes:
+            from .jun_checks import ref_encrypt
+            pool.append(("$9$Be4Ehy_b2GDkevYo", "jun9"))                       # `$9$`-shaped but not decodable (underscore)
+            pool.append(("$9$abc", "jun9"))
+            hb = rng.choice(ALPHA)
+            for ch in ("\xe9", "\xe8", "\xff"):                               # `$9$` plaintexts with bytes >= 0x80 that differ only there
+                pool.append((ref_encrypt("caf" + ch + "-key", hb), "jun9"))
+        # secrets whose encoded form is very long
+        if classes is None or "hex" in classes:
+            pool.append((rng.choice("abcdef") + "".join(rng.choice("0123456789abcdef") for _ in range(rng.choice([258, 300, 512]))), "hex"))
+        if classes is None or "numeric" in classes:
+            pool.append((str(rng.randint(1, 9)) + "".join(rng.choice("0123456789") for _ in range(rng.choice([257, 300]))), "numeric"))
+        if classes is None or "type7" in classes:
+            from passlib.hash import cisco_type7
+            pool.append((cisco_type7.using(salt=rng.randint(0, 15)).hash("".join(rng.choice(L.TEXT_ALPHA) for _ in range(140))), "type7"))
     forms_by_class = {}
     for t, cs in L.FORMS:
         for c in cs:
             forms_by_class.setdefault(c, []).append(t)
+    forms_by_class["textbs"] = [t for t in forms_by_class["text"] if '"' not in t and "'" not in t]
     hist = []
     for _ in range(n):
         s, c = rng.choice(pool)
         t = rng.choice(forms_by_class[c])
+        if c == "textbs":
+            hist.append((t, "{}", s, "text"))
+            continue
         quoted = '"{}"' in t
         # clear-text secrets are tried inside every kind of enclosing text; hashes and encoded values as devices write them
         wrap = "{}" if quoted or c != "text" or not t.endswith("{}") else rng.choice(WRAPS if rng.random() < 0.4 else ["{}"])
@@ -225,7 +247,33 @@ def c07_scope(res, pid, rng, tier):
                 if m and (m.group(0) in a or any(m.group(0) in x for _, x in g1[i])):
                     fails.append({"kind": "the secret survives in the output or in an INFO+ log record", "salt": cfg.salt,
                                   "line": lines1[i], "output": a, "logs": g1[i]})
-    # the known D11 family stays visible: an all-digit secret followed by another word
+    # two secrets recognised by the same line pattern on ONE line: neither may survive (which pseudonym the second one
+    # gets is the C08 known finding, not checked here)
+    cfg = fa.FaCfg(salt=SALTS[res.seed % len(SALTS)], pwd=True)
+    two = []
+    for _ in range(6 if tier == "quick" else 20):
+        a, b = L.gen_secret(rng, "text"), L.gen_secret(rng, "text")
+        a, b = "Qz" + re.sub(r"[^A-Za-z0-9]", "k", a) + "9x", "Wy" + re.sub(r"[^A-Za-z0-9]", "j", b) + "7v"
+        k32a, k32b = ("".join(rng.choice(L.B64[2:]) for _ in range(32)) for _ in range(2))
+        from .jun_checks import ref_encrypt
+        j1, j2 = ref_encrypt("plain" + a[:5], rng.choice(ALPHA)), ref_encrypt("other" + b[:5], rng.choice(ALPHA))
+        two += [("username alice password 0 %s username bob password 0 %s\n" % (a, b), a, b),
+                ('{"PreSharedKey": "%s"},{"PreSharedKey": "%s"}\n' % (k32a, k32b), k32a, k32b),
+                ("<pre_shared_key>%s</pre_shared_key><pre_shared_key>%s</pre_shared_key>\n" % (k32a, k32b), k32a, k32b),
+                ('secret "%s"; secret "%s";\n' % (j1, j2), j1, j2)]
+        # (two `snmp-server community` statements glued into one line are not a line form: the RANCID pattern's greedy
+        #  prefix takes the last one only - observed on the unchanged tree, recorded in DESIGN.md I.6, not probed)
+    try:
+        outs2, logs2 = run_lines(cfg, [t[0] for t in two])
+    except Exception as e:  # noqa
+        fails.append({"kind": "anonymize_io raised on a recognised line form", "exc": repr(e), "salt": cfg.salt})
+        outs2, logs2 = [], []
+    for (ln, a, b), out, lg in zip(two, outs2, logs2):
+        res.evaluations += 1
+        for s_ in (a, b):
+            if s_ in out or any(s_ in m for _, m in lg):
+                fails.append({"kind": "a secret survives in the output or in an INFO+ log record (two secrets of one line form on one line)",
+                              "salt": cfg.salt, "line": ln, "output": out, "secret": s_})
     return [], fails
 
 
@@ -385,7 +433,12 @@ def c09_scope(res, pid, rng, tier):
     rounds = 60 if tier == "thorough" else 14
     for r in range(rounds):
         cfg = fa.FaCfg(salt=SALTS[(r + res.seed) % len(SALTS)], pwd=True)
-        hist = gen_history(rng, 30, pool_size=12, same_plain9=False)
+        hist = gen_history(rng, 30, pool_size=12, same_plain9=False, odd_names=(r % 2 == 0))
+        hist = [h for h in hist if not (h[2].startswith("$9$") and h[2] in ("$9$Be4Ehy_b2GDkevYo", "$9$abc"))]   # (undecodable `$9$` look-alikes have no format to keep)
+        if r % 3 == 1:
+            # a sensitive word that occurs inside some of the secrets: the secret is replaced first, so its format class is the original's
+            picks = [h[2] for h in hist if h[3] in ("numeric", "type7", "hex", "md5") and len(h[2]) >= 8][:3]
+            cfg = fa.FaCfg(salt=cfg.salt, pwd=True, words=[p_[3:7] for p_ in picks] or ["zzzq"])
         # all type-7 salts, all md5 salt lengths, many $9$ salt characters
         for k in range(16):
             hist.append((" password 7 {}", "{}", cisco_type7.using(salt=k).hash("pw%dxyz" % k), "type7"))
@@ -461,6 +514,24 @@ def c09_scope(res, pid, rng, tier):
                 ok = sha512_crypt.identify(rep)
                 detail = "not a sha512-crypt hash"
             if not ok:
-                fails.append({"kind": "replacement does not have the original's format", "salt": cfg.salt, "line": ln,
+                fails.append({"kind": "replacement does not have the original's format", "salt": cfg.salt, "words": cfg.words, "line": ln,
                               "output": out, "original_class": want, "replacement_class": rc, "detail": detail})
+        # the same secret line again with other indentation / line terminator: each copy keeps its own
+        h0 = hist[r % len(hist)]
+        body = render(h0).rstrip("\n")
+        copies = [body + "\n", "  " + body + "\n", "      " + body + "\n", "\t" + body + " \n", " " + body + "\r\n", body]
+        try:
+            obj = cfg.build()
+            o_ = io.StringIO()
+            with fa.LogCap():
+                obj.anonymize_io(io.StringIO("".join(copies), newline=""), o_)
+            outs_c = o_.getvalue().splitlines(True)
+        except Exception as e:  # noqa
+            fails.append({"kind": "anonymize_io raised", "exc": repr(e), "salt": cfg.salt, "lines": copies})
+            outs_c = []
+        res.evaluations += len(copies)
+        frame = lambda x: (x[:len(x) - len(x.lstrip(" \t"))], x[len(x.rstrip(" \t\r\n")):])  # noqa
+        if outs_c and (len(outs_c) != len(copies) or any(frame(a) != frame(b) for a, b in zip(copies, outs_c))):
+            fails.append({"kind": "white space before / after the line or its terminator not kept in place when the same secret line occurs again",
+                          "salt": cfg.salt, "lines": copies, "outputs": outs_c})
     return [], fails
